@@ -1,8 +1,8 @@
 #!/bin/bash
-# runs every registered quick check in sequence, prints exit code and time
+# runs every registered quick check in sequence (no evidence rewrite), prints exit code and time
 cd /verif
-for p in $(python3 -c "import json;print(' '.join(c['property_id'] for c in json.load(open('MANIFEST.json'))['checks']))"); do
+for p in $(./bin/gosmt list | awk '{print $1}' | sort -u); do
   s=$(date +%s)
-  timeout ${QT:-1800} ./bin/gosmt check --property $p --tier ${TIER:-quick} > /tmp/q_$p.txt 2>&1; e=$?
+  GOSMT_TIMES=1 timeout ${QT:-1800} ./bin/gosmt check --property $p --tier ${TIER:-quick} --noevidence > /tmp/q_$p.txt 2>&1; e=$?
   echo "$p exit=$e t=$(( $(date +%s)-s ))s $(grep -a -c -E '^VIOLATION' /tmp/q_$p.txt) viol; $(grep -a -E '^(INCONCLUSIVE|KNOWN-FINDING)' /tmp/q_$p.txt | head -2 | cut -c1-160)"
 done
